@@ -5,6 +5,7 @@ import (
 	"encoding/json"
 	"errors"
 	"fmt"
+	"io"
 	"strings"
 
 	mcp "trpc.group/trpc-go/trpc-mcp-go"
@@ -43,6 +44,10 @@ func c15MW(i int, beh string, tr *c15Trace, only string) mcp.Middleware {
 			if only != "" && req.Method != only {
 				beh = "pass"
 			}
+			if strings.HasPrefix(beh, "fail:") {
+				// an error value that wraps one of the sentinels the library's own plumbing looks for
+				return nil, fmt.Errorf("mw-fail-%d: %w", i, c15Sentinel(beh))
+			}
 			switch beh {
 			case "short":
 				return &mcp.CallToolResult{Content: []mcp.Content{mcp.NewTextContent(fmt.Sprintf("short%d", i))}}, nil
@@ -57,6 +62,9 @@ func c15MW(i int, beh string, tr *c15Trace, only string) mcp.Middleware {
 			if beh == "failafter" {
 				return r, errors.New(fmt.Sprintf("mw-failafter-%d", i))
 			}
+			if strings.HasPrefix(beh, "failafter:") {
+				return r, fmt.Errorf("mw-failafter-%d: %w", i, c15Sentinel(beh))
+			}
 			if beh == "modres" && err == nil {
 				if ctr, ok := r.(*mcp.CallToolResult); ok && ctr != nil {
 					cp := *ctr
@@ -69,8 +77,29 @@ func c15MW(i int, beh string, tr *c15Trace, only string) mcp.Middleware {
 	}
 }
 
+func c15Sentinel(beh string) error {
+	switch beh[strings.Index(beh, ":")+1:] {
+	case "canceled":
+		return context.Canceled
+	case "deadline":
+		return context.DeadlineExceeded
+	case "eof":
+		return io.EOF
+	}
+	return errors.New("other")
+}
+
+var c15ErrorValues = []string{"fail:canceled", "fail:deadline", "fail:eof", "failafter:canceled", "failafter:deadline"}
+
 // c15Expect is the reference onion interpreter.
-func c15Expect(chain []string, method, sid string) (trace []string, kind string, texts []string, handlerRuns bool) {
+func c15Expect(chain0 []string, method, sid string) (trace []string, kind string, texts []string, handlerRuns bool) {
+	chain := make([]string, len(chain0))
+	for i, b := range chain0 {
+		if j := strings.Index(b, ":"); j > 0 {
+			b = b[:j] // what kind of error value a middleware fails with makes no difference
+		}
+		chain[i] = b
+	}
 	var run func(k int, mark string) (string, []string)
 	run = func(k int, mark string) (string, []string) {
 		if k == len(chain) {
@@ -144,6 +173,14 @@ func c15Cases(tier string) []c15Case {
 						continue
 					}
 					out = append(out, c15Case{mode, form, ch, m})
+				}
+			}
+		}
+		// middlewares that fail with error values wrapping context.Canceled, context.DeadlineExceeded, io.EOF
+		for _, ev := range c15ErrorValues {
+			for _, ch := range [][]string{{ev}, {"pass", ev}, {ev, "pass"}, {"modres", ev}} {
+				for _, m := range []string{"tools/call", "tools/list"} {
+					out = append(out, c15Case{mode, "single", ch, m})
 				}
 			}
 		}
